@@ -310,6 +310,7 @@ def check_C03(ctx, tier):
     A.rule_A_POPKEYS(ctx, ctx.repo)               # the multi-key mutator fails before it removes anything
     A.rule_A_COMMIT(ctx, ctx.repo, cache)         # every SQL write is committed (another handle of the same archive is the same dict)
     A.rule_A_GLOBAL(ctx, ctx.repo)                # archives of different names share nothing
+    A.rule_A_GLOBROOT(ctx, ctx.repo)              # the archive's own path is never read as a glob pattern
     A.rule_A_READFAIL(ctx, ctx.repo, cache)       # a store that cannot be decoded reads as empty / missing
     A.rule_A_WRITEALL(ctx, ctx.repo, cache)       # every assignment reaches the store
     A.rule_A_EQ(ctx, ctx.repo, cache)
